@@ -716,3 +716,23 @@ fire("C04", "compaction-advances-on-empty-flush", "R4.8", E(COO, "coo_sum_duplic
      "seeded r3_C04: in-place unique compaction ending in ind = sum_ind + 1 - an empty flush makes a stale slot live")
 silent("C04", "compaction-guarded", E(COO, "coo_sum_duplicates", _CSD_OLD, _CSD_GOOD),
        "the same compaction with the advance under a non-empty test")
+
+# --- C09: max_char_code must cover every character (seeded r3_C09)
+fire("C09", "max-char-code-from-pairs", "R9.5", [E(MG, "bpe_train", "            c_val = ord(c)\n            compressed_chars[i][j] = c_val\n            if c_val > max_char_code:\n                max_char_code = c_val\n", "            compressed_chars[i][j] = ord(c)\n"),
+                                                E(MG, "bpe_train", "    new_code = max_char_code + 1\n    pair_counts = count_pairs(compressed_chars)\n", "    pair_counts = count_pairs(compressed_chars)\n    for pair in pair_counts.keys():\n        max_char_code = max(max_char_code, pair[0], pair[1])\n    new_code = max_char_code + 1\n")],
+     "seeded r3_C09: one-character strings form no pair, their code points are missed", allow_error=True)
+silent("C09", "max-char-code-with-max", E(MG, "bpe_train", "            if c_val > max_char_code:\n                max_char_code = c_val\n", "            max_char_code = max(max_char_code, c_val)\n"),
+       "the running maximum written with max()")
+
+# --- round 3: vectorised histogram transform (seeded r3_C12), SVD scaling (seeded r3_C02)
+_HT_OLD = "        result = np.ndarray((len(X), len(self.bin_intervals_)))\n        for i, seq in enumerate(X):\n            result[i, :] = self._vector_transform(seq).values\n        return result\n"
+_HT_NEW = "        n_bins = len(self.bin_intervals_)\n        lengths = [len(seq) for seq in X]\n        bin_codes = pd.cut(np.asarray(flatten(X)), self.bin_intervals_).codes\n        row_offsets = np.repeat(np.arange(len(X)) * n_bins, lengths)\n%s        counts = np.bincount(row_offsets + bin_codes, minlength=len(X) * n_bins)\n        return counts.reshape(len(X), n_bins).astype(np.float64)\n"
+for _p, _r in (("C20", "R20.2"), ("C12", "R12.5")):
+    fire(_p, "histogram-flat-bincount", _r, E(VEC, "HistogramVectorizer.transform", _HT_OLD, _HT_NEW % ""),
+         "seeded r3_C12: a no-bin value of row i is counted in the last bin of row i - 1")
+    silent(_p, "histogram-flat-bincount-filtered", E(VEC, "HistogramVectorizer.transform", _HT_OLD, _HT_NEW % "        keep = bin_codes >= 0\n        row_offsets, bin_codes = row_offsets[keep], bin_codes[keep]\n"),
+           "the same one-pass binning with the no-bin code removed")
+fire("C02", "svd-scaling-power-parameter", "R2.9", E(CFC, "CountFeatureCompressionTransformer.fit_transform", "        self.component_scaling_ = np.sqrt(s)", "        self.component_scaling_ = np.power(s, self.rescaling_power)"),
+     "seeded r3_C02: u s^p from fit_transform, u s^(1-p) from transform")
+silent("C02", "svd-scaling-power-half", E(CFC, "CountFeatureCompressionTransformer.fit_transform", "        self.component_scaling_ = np.sqrt(s)", "        self.component_scaling_ = np.power(s, 0.5)"),
+       "the square root spelled as a power")
